@@ -83,10 +83,10 @@ type Explorer struct {
 	poolPutHook func(fr *frame, pool *value, v value)
 	poolGotHook func(v value)
 
-	curModel map[string]uint64
-	evalMemo map[int]uint64
-	decided  map[int]bool
-	chosen   map[string]uint64
+	curModel  map[string]uint64
+	evalMemo  map[int]uint64
+	decided   map[int]bool
+	chosen    map[string]uint64
 	chooseCnt map[string]int
 
 	Res       *JobResult
